@@ -112,6 +112,44 @@ def scenario(R, N, client_kind, nsend, with_write_error):
     return main
 
 
+def scenario_unconnected(R, N, client_kind):
+    """an unsendable message handed to send() on a client that was never connected: nothing may happen at all"""
+    tr = {"conns": [], "states": [], "writes": [], "kinds": []}
+
+    async def main(loop):
+        async def open_connection(host, port):
+            tr["conns"].append(loop.time())
+            return asyncio.StreamReader(), aio.FakeWriter(tr["writes"], len(tr["conns"]) - 1, {})
+        aio.install(R, open_connection)
+        c = aio.make_client(R, client_kind)
+
+        async def st(s):
+            tr["states"].append(s.name)
+        c.set_status_callback(st)
+        bad = [k for k in KINDS if k not in ("single", "fast")]
+        k = bad[EX().choose(len(bad))] if client_kind != "actisense" else KINDS[EX().choose(len(KINDS))]
+        tr["kinds"].append(k)
+        tr["state0"] = c.state.name
+        await c.send(make_msg(N, k, 10))
+        await asyncio.sleep(3.0)
+        tr["final"] = c.state.name
+        await c.close()
+        return tr
+    return main
+
+
+def judge_unconnected(tr, res, env):
+    if env.livelock:
+        return ["event loop starved"]
+    if isinstance(res, BaseException):
+        return ["send() of an unsendable message on a client without a link raised %r" % (res,)]
+    states = [s for s in tr["states"] if s != "CLOSED"]
+    if tr["conns"] or states or tr["writes"] or tr["final"] != tr["state0"]:
+        return ["an unsendable message (%s) on a client that was never connected: %d connection(s) opened, notifications %r, %d packet(s) written, state %s -> %s" % (
+            tr["kinds"][0], len(tr["conns"]), tr["states"], len(tr["writes"]), tr["state0"], tr["final"])]
+    return []
+
+
 def judge(tr, res, env, N, client_kind, with_write_error):
     if env.livelock:
         return ["event loop starved"]
@@ -161,6 +199,8 @@ def _worker(job):
     distinct = set()
 
     def h():
+        if werr == "unconnected":
+            return aio.run(scenario_unconnected(R, N, client_kind))
         return aio.run(scenario(R, N, client_kind, nsend, werr))
     try:
         for pa, ex in explore_iter(h, max_paths=200000, fuel=10 ** 9):
@@ -170,13 +210,16 @@ def _worker(job):
                 continue
             res, env = pa.value
             tr = res if isinstance(res, dict) else {}
-            pr = judge(tr, res, env, N, client_kind, werr) if isinstance(res, dict) or isinstance(res, BaseException) else ["no trace"]
+            if werr == "unconnected":
+                pr = judge_unconnected(tr, res, env)
+            else:
+                pr = judge(tr, res, env, N, client_kind, werr) if isinstance(res, dict) or isinstance(res, BaseException) else ["no trace"]
             distinct.add((tuple(tr.get("kinds", ())), tuple(tr.get("drains", ())), tr.get("werr")))
             if pr:
                 rep.violation({"kind": "send", "client": client_kind, "what": pr[0].split(":")[0][:60]},
                               "%s client, %d concurrent send(s): %s" % (client_kind, nsend, "; ".join(pr[:2])),
                               {"kind": "send", "client": client_kind, "nsend": nsend, "werr": werr, "decisions": [int(d) for d in pa.decisions]})
-            if len(rep.samples) < 1 and isinstance(res, dict):
+            if len(rep.samples) < 1 and isinstance(res, dict) and "drains" in tr:
                 rep.sample({"client": client_kind, "kinds": tr["kinds"], "drain_suspends": tr["drains"], "packets_written": len(tr["writes"])})
     except Unsupported as e:
         rep.inconc("%r: %s" % (job, e))
@@ -194,7 +237,7 @@ def run(tier, seed):
                   "write errors": "at the 1st, 2nd or 3rd packet of a 2-frame + 1-frame pair of messages; reported by write() or by the following drain(); as %s" % ", ".join(n_ for n_, _ in WRITE_ERRORS), "clients": list(SENDERS)}
     rep.stubs = ["StreamWriter -> recording stub whose drain() suspension and write failure are chosen by the explorer"]
     rep.outside = ["more than %d concurrent senders" % ns, "messages with more than 2 frames"]
-    jobs = [(k, ns, False) for k in SENDERS] + [(k, 2, True) for k in SENDERS if k != "actisense"]
+    jobs = [(k, ns, False) for k in SENDERS] + [(k, 2, True) for k in SENDERS if k != "actisense"] + [(k, 1, "unconnected") for k in SENDERS]
     parts = run_jobs(rep, _worker, jobs, timeout_s=800)
     n = sum(p["n"] for p in parts if p and "n" in p)
     dn = sum(p["distinct"] for p in parts if p and "distinct" in p)
@@ -231,8 +274,10 @@ def replay_inproc(r):
     Rp = types.SimpleNamespace(ioclient=N.ioclient, decoder=N.decoder, encoder=N.encoder)
     explorer._STACK.append(_Replayer(r["decisions"]))
     try:
-        res, env = aio.run(scenario(Rp, N, r["client"], r["nsend"], r["werr"]))
+        res, env = aio.run(scenario_unconnected(Rp, N, r["client"]) if r["werr"] == "unconnected" else scenario(Rp, N, r["client"], r["nsend"], r["werr"]))
     finally:
         explorer._STACK.pop()
         loader.TICK_HOOK[0] = None
+    if r["werr"] == "unconnected":
+        return {"problems": judge_unconnected(res if isinstance(res, dict) else {}, res, env)}
     return {"problems": judge(res if isinstance(res, dict) else {}, res, env, N, r["client"], r["werr"])}
